@@ -1055,7 +1055,7 @@ theorem cell_some_heap {s : St} {b k : Nat} {v : Val} (h : cell s b k = some v) 
 
 /-- the tensor returned by `Clone()` in state `st` -/
 def cloneOf (st : St) (t : Dense) : Dense :=
-  { ap := { t.ap with fin := true }, old := t.old, tw := none,
+  { ap := { t.ap with fin := true }, old := t.old, tw := t.tw,
     win := ⟨st.heap.size, 0, t.win.len, t.win.len⟩, dt := t.dt, eng := t.eng }
 
 /-- `Clone()` of an unmasked tensor whose window lies in an allocated buffer: total, fresh buffer,
